@@ -6,7 +6,8 @@ import pipe_world
 # ------------------------------------------------------------------------------------------------
 # model checking of the store model (MCWorld)
 MC_WORLD = {
-    "quick": [("MCWorld1q.cfg", "1 world, 2 components, <=3 value creations, batches 0..2")],
+    "quick": [("MCWorld1q.cfg", "1 world, 2 components, <=3 value creations, batches 0..2"),
+              ("MCWorld2q.cfg", "2 worlds (clone / clone_from / serde between them), 2 components, <=1 value creation, batches 0..1")],
     "thorough": [("MCWorld1.cfg", "1 world, 2 components, <=4 value creations, batches 0..2"),
                  ("MCWorld2.cfg", "2 worlds (clone / clone_from / serde between them), 2 components, <=2 value creations, batches 0..2")],
 }
